@@ -20,7 +20,7 @@ THEOREMS = [
 ]
 RULE = ('triples (ns, nswin, overlap) with overlap < nswin: an exhaustive small box plus seeded random triples '
         '(log-uniform sizes up to 10^7, biased to short last windows, ns <= overlap, zero overlap, 2*overlap = nswin); '
-        'each triple is run through firstlast / nwin / tscale (a subset also twice on ONE generator object), firstlast_valid (even overlaps, odd ones must assert) '
+        'a subset also with the three arguments given in other numeric forms (numpy ints of several widths, floats); each triple is run through firstlast / nwin / tscale (a subset also twice on ONE generator object), firstlast_valid (even overlaps, odd ones must assert) '
         'and firstlast_splicing; a case is non-trivial when it yields >= 2 windows or ns < nswin; distinct by triple+op')
 ASSUMPTIONS = [
     'nwin is computed in float64 by the code (ceil of a float quotient); the model uses exact integers, equal for ns < 2^26',
@@ -81,6 +81,41 @@ def _impl_same_object(ns, w, ov):
         out.append((f'ok nwin={int(wg.nwin)} fl=' + (';'.join(f'{a},{b}' for a, b in fl) or '-') + ' ts2=' + (','.join(map(str, ts2)) or '-'),
                     vs, sl == fl, amps))
     return out
+
+
+_FORMS = {
+    'int': int, 'np.int64': np.int64, 'np.int32': np.int32, 'np.int16': np.int16, 'np.uint16': np.uint16,
+    'float': float, 'np.float64': np.float64, 'np.float32': np.float32,
+}
+
+
+def _form_ok(name, v):
+    """can value v be represented exactly in this form?"""
+    if name in ('np.int16',):
+        return v < 2 ** 15
+    if name in ('np.uint16',):
+        return v < 2 ** 16
+    if name in ('np.int32',):
+        return v < 2 ** 31
+    if name == 'np.float32':
+        return v < 2 ** 24
+    return True
+
+
+def _impl_forms(ns, w, ov, fns, fw, fov):
+    """Same VALUES, other numeric FORMS of the three constructor arguments.  Windows must come out as integers usable as
+    slice bounds; the iteration is capped so that a generator that never reaches the end cannot hang the check."""
+    import itertools
+    import operator
+    from ibldsp.utils import WindowGenerator
+    nexp = max(-(-(ns - w) // (w - ov)), 0) + 1
+    wg = WindowGenerator(_FORMS[fns](ns), _FORMS[fw](w), _FORMS[fov](ov))
+    fl = list(itertools.islice(wg.firstlast, nexp + 3))
+    flc = [(operator.index(a), operator.index(b)) for a, b in fl]       # TypeError for float bounds
+    sl = [np.arange(ns)[s_] for s_ in itertools.islice(wg.slice, nexp + 3)]
+    assert all(len(x) == b - a for x, (a, b) in zip(sl, flc)), 'slice does not select the window'
+    ts2 = [int(round(2 * float(t))) for t in itertools.islice(iter(wg.tscale(1)), nexp + 3)] if len(fl) <= nexp else []
+    return f'ok nwin={int(wg.nwin)} fl=' + (';'.join(f'{a},{b}' for a, b in flc) or '-') + ' ts2=' + (','.join(map(str, ts2)) or '-')
 
 
 def _decode(tok):
@@ -158,6 +193,25 @@ def correspondence(ctx):
             impl_s, model_s = f'err {type(e).__name__}: {e}', ans[:80]
         ctx.compare('splice', desc, impl_s, model_s, nontrivial=(ns > w),
                     tags=('splice', '2ov<=w' if 2 * ov <= w else '2ov>w'))
+    # same values, other numeric forms of (ns, nswin, overlap): numpy ints of several widths, floats
+    names = list(_FORMS)
+    ft = [t for t in trip if t[0] <= 5000 and (t[0] - t[1]) // (t[1] - t[2]) <= 300][::ctx.n(9, 3)]
+    lines, metas = [], []
+    for k, (ns, w, ov) in enumerate(ft):
+        r = ctx.subrng(17, k)
+        pick = lambda v: [n for n in names if _form_ok(n, v)]
+        fns, fw, fov = (str(r.choice(pick(ns))), str(r.choice(pick(w))), str(r.choice(pick(ov))))
+        if k % 3 == 0:
+            fns, fw = 'int', 'int'            # only the overlap in another form
+        lines.append(f'firstlast {ns} {w} {ov}'); metas.append((ns, w, ov, fns, fw, fov))
+    model = ctx.lean(lines)
+    for (ns, w, ov, fns, fw, fov), m in zip(metas, model):
+        try:
+            impl_s = _impl_forms(ns, w, ov, fns, fw, fov)
+        except Exception as e:
+            impl_s = f'err {type(e).__name__}: {str(e)[:80]}'
+        ctx.compare('forms', {'op': 'forms', 'ns': ns, 'nswin': w, 'overlap': ov, 'forms': [fns, fw, fov]}, impl_s, m,
+                    nontrivial=(ns > w), tags=('forms', 'ov:' + fov))
     # same object reused (state carried between calls: iw counter, cached ramps ...)
     so = [t for t in trip if t[0] <= 300 and t[1] <= 40][::ctx.n(23, 5)] + [t for t in trip[-200:] if t[0] * ((t[0] - t[1]) // (t[1] - t[2]) + 2) <= 60000]
     lines = []
@@ -239,10 +293,42 @@ def oracle(ns, w, ov):
     return None
 
 
+def oracle_forms(ns, w, ov, forms):
+    """C17 on the same values given in other numeric forms: windows are integer index pairs spanning [0, ns) with exact
+    overlap, and the announced count equals the number produced (iteration capped)."""
+    import itertools
+    import operator
+    from ibldsp.utils import WindowGenerator
+    nexp = max(-(-(ns - w) // (w - ov)), 0) + 1
+    try:
+        wg = WindowGenerator(_FORMS[forms[0]](ns), _FORMS[forms[1]](w), _FORMS[forms[2]](ov))
+        fl = list(itertools.islice(wg.firstlast, 4 * nexp + 8))
+    except Exception as e:
+        return f'WindowGenerator({forms[0]}({ns}), {forms[1]}({w}), {forms[2]}({ov})) raised {type(e).__name__}: {e}'
+    try:
+        flc = [(operator.index(a), operator.index(b)) for a, b in fl]
+    except TypeError:
+        return f'windows are not integers (cannot be used as slice bounds): {fl[:3]}'
+    if not flc or flc[0][0] != 0 or flc[-1][1] != ns or len(flc) != nexp:
+        return f'{len(flc)} windows {flc[:3]}…{flc[-1:]} do not span [0, {ns}) in {nexp} windows'
+    if any(b - c != ov for (a, b), (c, d) in zip(flc[:-1], flc[1:])):
+        return 'consecutive windows do not overlap by the requested amount'
+    if int(wg.nwin) != len(flc):
+        return f'announced nwin={wg.nwin} but {len(flc)} windows produced'
+    return None
+
+
 def search(ctx, reasons):
     cands = []
     for m in ctx.mismatches[:200]:
         c = m['case']
+        if c.get('op') == 'forms':
+            r = oracle_forms(c['ns'], c['nswin'], c['overlap'], c['forms'])
+            if r:
+                return {'input': {'ns': c['ns'], 'nswin': c['nswin'], 'overlap': c['overlap'], 'forms': c['forms']}, 'observed': r,
+                        'expected': 'C17 on the same values in another numeric form of the arguments',
+                        'how': 'harness/props/c17.py oracle_forms(ns, nswin, overlap, forms)'}
+            continue
         cands.append((c['ns'], c['nswin'], c['overlap']))
     for ns in range(1, 61):
         for w in range(1, 17):
@@ -269,7 +355,7 @@ def search(ctx, reasons):
 
 def replay(ctx, rep):
     i = rep['input']
-    r = oracle(i['ns'], i['nswin'], i['overlap'])
+    r = oracle_forms(i['ns'], i['nswin'], i['overlap'], i['forms']) if 'forms' in i else oracle(i['ns'], i['nswin'], i['overlap'])
     print('oracle:', r)
     return r is not None
 
